@@ -140,7 +140,7 @@ def crash_case(runner, r, oc, reqs, pend, max_points, big=False, support_copy=Fa
             oc.samples.append(dict(model=model2, evolved=evolve, operations=n, crash_points=len(points), first_ops=ops[:5]))
 
 
-def reused_instance_case(runner, r, oc, points=12):
+def reused_instance_case(runner, r, oc, points=12, reqs=None, pend=None):
     """a script that keeps its generator object (smgen.CStateMachineGenerator): first run into an empty directory - every file
     is new -, hand-written code added, then the same object generates again (same or changed table) and is interrupted"""
     import sys
@@ -178,10 +178,16 @@ def reused_instance_case(runner, r, oc, points=12):
         ref = os.path.join(base, "ref")
         g = first_run(ref, seed)
         before = e2e.snapshot(ref)
+        runner.captured_out = []
         with fsfault.Tracer(ref) as tr:
             gen(g, model2)
         n = len(norm_ops(tr.ops))
         final = e2e.snapshot(ref)
+        if reqs is not None and len(runner.captured_out) == 1:
+            # the second run of a kept object performs the same operations as any run: Lean prog(script(outdir, code model))
+            reqs.append(dict(cmd="script", outdir=ref, cm=[[k_, v_] for k_, v_ in runner.captured_out[-1]]))
+            pend.append(("script", dict(model=model2, reused_generator=True, existed=[os.path.join(ref, k_) for k_ in before], copy_tmps=[]), traced_ops(norm_ops(tr.ops))))
+            oc.stat("reused_generator_runs_compared_with_the_model")
         ks = sorted(set(r.sample(range(n + 1), min(n + 1, points))))
         for k in ks:
             work = os.path.join(base, "w%d" % k)
@@ -363,7 +369,7 @@ def run(tier):
     oc.rule = ("fault enumeration: directory with user code, (possibly mutated) model regenerated with operation k of the traced output stage failing, "
                "k over every operation index (quick: all indices of small runs, sampled incl. first/last for large ones), as raised OSError(ENOSPC) in-process and as os._exit in a forked child "
                "(with and without flushing the buffered data first); oracle: every pre-existing file equals its old bytes or the bytes of a complete run; "
-               "half of the C++ / protocol cases with kojen's default copy of the support sources on (stale copies pre-existing); a second fault point right after every open; "
+               "half of the C++ / protocol cases with kojen's default copy of the support sources on (stale copies pre-existing); a second fault point right after every open; histories in which the script keeps one generator object (smgen.CStateMachineGenerator) for a first run into an empty directory and a faulted second run; "
                "translation validation: traced operation sequence == Lean prog(runBlocks(outdir, code model, recorded FileCopyUtil calls)); non-trivial = fault before the end in a directory with files")
     oc.assumptions = TRUSTED
     r = rng(PROP)
@@ -378,7 +384,7 @@ def run(tier):
     for i in range(12 if thorough else 3):
         if oc.violations:
             break
-        reused_instance_case(runner, r, oc, points=30 if thorough else 12)
+        reused_instance_case(runner, r, oc, points=30 if thorough else 12, reqs=reqs, pend=pend)
     settle(oc, reqs, pend)
     return finish(PROP, tier, proof, oc, t0, level="proof", trusted=TRUSTED, search=search)
 
